@@ -3,7 +3,7 @@
    rule_expand_macro_invocations / invoke_macro / body_items_rename_macro_originated_vars, identifiers carry an origin
    tag = the model's counterpart of a token span; hygienic reference expansion [hexpand_rule]: every invocation gets a
    scope number, all identifiers of the macro body are stamped with it, parameters are replaced by the actuals, which keep
-   their scopes, nothing is renamed); proofs in Macros/MacroSim.v, MacroProofs.v, MacroErrors.v, MacroRefuted.v.
+   their scopes, nothing is renamed); proofs in Macros/MacroSim.v, MacroNested.v, MacroProofs.v, MacroErrors.v, MacroRefuted.v.
 
    LEVEL: alpha-equivalence of rules (syntactic).  [hygienic_image r' h phi] says that the real expansion r' IS the
    reference expansion h in which the scoped identifier (iname, isc) is spelled [phi iname isc], with phi injective on the
